@@ -1114,7 +1114,7 @@ def run_batch(chk, jobs, meta, tier):
 
 def run(tier, seed):
     chk = C.Check("C05", tier, seed)
-    nprog = 60 if tier == "quick" else 1100
+    nprog = 50 if tier == "quick" else 1100
     chk.rule = ("programs = random compositions (2-6 features each, seeded) of 22 feature generators that reach code only "
                 "through interfaces (exported/unexported/same-named methods), anonymous interfaces and assertions, method "
                 "values/expressions, embedding, generic functions/types/constraint methods, types nested in functions and "
